@@ -22,3 +22,13 @@ Definition bound_write (maxbytes : Z) (buf b : bytes) : bytes :=
 (* capturelog.getvalue() after the chunks were logged, starting from an empty buffer *)
 Definition bound_writes (maxbytes : Z) (chunks : list bytes) : bytes :=
   fold_left (bound_write maxbytes) chunks [].
+
+(* several BEGIN..END sections in one run: toggle_capturemode() reads the buffer at
+   END and then clears it (handler.remove() of a BoundIO clears the buffer) *)
+Fixpoint blocks_run (maxbytes : Z) (buf : bytes) (blocks : list (list bytes)) : list bytes :=
+  match blocks with
+  | [] => []
+  | chunks :: r =>
+    let data := fold_left (bound_write maxbytes) chunks buf in
+    data :: blocks_run maxbytes [] r            (* cleared for the next section *)
+  end.
